@@ -194,19 +194,33 @@ def run_session(cfg, csv_path, symbols, data_source=None, probe_signals=False, h
         for name, lbs in (cfg.get('signals') or {}).items():
             cls = {'momentum': q.MomentumSignal, 'sma': q.SMASignal, 'vol': q.VolatilitySignal}[name]
             # (a signal may be declared with a later start of its own: it is fed from the session's first close all the same)
-            sig[name] = cls(cal.ts6(cfg['signal_start']) if cfg.get('signal_start') else start, sig_universe, list(lbs))
+            # (the lookback list is the configuration's own list object, as when settings are defined once and reused)
+            sig[name] = cls(cal.ts6(cfg['signal_start']) if cfg.get('signal_start') else start, sig_universe, lbs)
+        # (the lookback lists live in the configuration and are the same objects whenever the configuration is run again)
         if acfg['kind'] == 'topn' and 'momentum' not in sig:
-            sig['momentum'] = q.MomentumSignal(start, universe, [acfg['lookback']])
+            sig['momentum'] = q.MomentumSignal(start, universe, acfg.setdefault('lookback_list', [acfg['lookback']]))
         if acfg['kind'] == 'sma' and 'sma' not in sig:
-            sig['sma'] = q.SMASignal(start, universe, [acfg['fast'], acfg['slow']])
+            sig['sma'] = q.SMASignal(start, universe, acfg.setdefault('lookback_list', [acfg['fast'], acfg['slow']]))
         if acfg['kind'] == 'invvol' and 'vol' not in sig:
-            sig['vol'] = q.VolatilitySignal(start, universe, [acfg['lookback']])
+            sig['vol'] = q.VolatilitySignal(start, universe, acfg.setdefault('lookback_list', [acfg['lookback']]))
         sig_dh = dh
         if cfg.get('signals_feed') == 'other_adjustment':
             # the signals read a feed of their own: the same files with the opposite price adjustment
             sig_dh = q.BacktestDataHandler(universe, data_sources=[q.CSVDailyBarDataSource(
                 csv_path, q.Equity, adjust_prices=not cfg.get('adjust', True), csv_symbols=list(symbols))])
         signals = q.SignalsCollection(sig, sig_dh)
+        if cfg.get('prewarm_days'):
+            # the collection already holds the closes of the business days before the session (driven directly, or
+            # left from a session over the preceding days): the session carries on from there
+            import datetime as D_
+            d_ = start.date() - D_.timedelta(days=1)
+            pre_ = []
+            while len(pre_) < cfg['prewarm_days']:
+                if d_.weekday() < 5:
+                    pre_.append(d_)
+                d_ -= D_.timedelta(days=1)
+            for d_ in reversed(pre_):
+                signals.update(cal.ts(d_, 21, 0))
     if acfg['kind'] in ('fixed', 'single') and shared.get('alpha_inner') is not None:
         alpha = shared['alpha_inner']          # the very object an earlier session used
     elif acfg['kind'] == 'fixed':
@@ -257,8 +271,12 @@ def run_session(cfg, csv_path, symbols, data_source=None, probe_signals=False, h
         kw['account_name'] = 'acct-' + cfg['portfolio_id']
     if cfg['long_only']:
         kw['cash_buffer_percentage'] = cfg['buffer']
+        if cfg.get('spare_sizing_kw'):
+            kw['gross_leverage'] = 2.0
     else:
         kw['gross_leverage'] = cfg['leverage']
+        if cfg.get('spare_sizing_kw'):
+            kw['cash_buffer_percentage'] = 0.05
     r = Run()
     r.cfg = cfg
     r.universe = universe
